@@ -19,7 +19,7 @@ from sim import world as Wd
 ID = 'C03'
 LEVEL = 'exploration'
 ENGINE = 'history'
-BUDGET = {'quick': 2500, 'thorough': 250000}
+BUDGET = {'quick': 6000, 'thorough': 250000}
 WALL = {'quick': 45, 'thorough': 1500}
 RULE = ('one trash-put of 1-3 entries per case with names over all byte values 1-255 except / (incl. newline, CR, %, =, [, space, +, #, ?, '
         'multi-byte and invalid UTF-8), depth 1-6, up to 255 bytes, at a simulated time from year 1 to 9999 with sub-second position, into home / '
